@@ -28,8 +28,10 @@ func Equal(fg *FunctionGenerator) OperationMatrix {
 	m.Register(FloatTypeId, IntTypeId, func(_ funcGen.Stack[Value], a, b Value) (Value, error) {
 		return Bool(a.(Float) == Float(b.(Int))), nil
 	})
-	deepEqual := &operationMatrixDeepEqual{equal: m, ef: func(st funcGen.Stack[Value], a, b Value) (bool, error) {
-		eq, err := m.Calc(st, a, b)
+	deepEqual := &operationMatrixDeepEqual{equal: m}
+	// the elements of lists and maps are compared deeply, too
+	deepEqual.ef = func(st funcGen.Stack[Value], a, b Value) (bool, error) {
+		eq, err := deepEqual.Calc(st, a, b)
 		if err != nil {
 			return false, err
 		}
@@ -37,7 +39,7 @@ func Equal(fg *FunctionGenerator) OperationMatrix {
 			return bool(b), err
 		}
 		return false, fmt.Errorf("%v is not a bool", eq)
-	}}
+	}
 
 	ef := func(st funcGen.Stack[Value], a, b Value) (bool, error) {
 		eq, err := deepEqual.Calc(st, a, b)
